@@ -9,7 +9,7 @@ BATCH = 4
 TIMEOUT = {'quick': 900, 'thorough': 3000}
 BOUNDS = dict(Gaussian_FJC='chain lengths N = 2..12 (quick), 2..32 (thorough); k a 2-element symbolic array, k>0; sigma / l > 0', GaussianRing='N = 2..8', DiscreteKoyama='constructor guards with symbolic sigma, l, lp; pair sum for N = 3..8 on 3 concrete valid parameter sets with symbolic k',
               trivial='SingleSite, NoIntra, InterMolecular on a symbolic k array', NFJC='evaluates without raising; no denominator of the real calculate can vanish for k>0 on the 999-node quadrature')
-OUTSIDE = ['call histories on one NFJC object (two symbolic evaluations of the 999-node quadrature exceed the budget: 8 min and an undecided reachability witness), so a result cache in NFJC is not covered', 'N > 32 (an unbounded-N proof needs induction); the numerical value of the NFJC quadrature; Koyama\'s moment formulas (kernel_base) are used as the definition of the per-pair kernel, not re-derived',
+OUTSIDE = ['call histories on one NFJC object are covered in the thorough tier only and only for N=2 (two symbolic evaluations of the 999-node meshgrid take ~10 min; for N>=3 the symbolic quadrature of two evaluations exceeds the budget), so a result cache in NFJC is not seen by the quick tier', 'N > 32 (an unbounded-N proof needs induction); the numerical value of the NFJC quadrature; Koyama\'s moment formulas (kernel_base) are used as the definition of the per-pair kernel, not re-derived',
            'floating-point cancellation of the closed forms at very small k (Real model here)', 'the limits k->0 / k->inf themselves: proven is the polynomial identity with the pair sum, whose value is N at E=1 and 1 at E=0 (continuity is the pen-and-paper step)']
 ASSUMPTIONS = ['E = exp(-k^2 sigma^2/6) resp. sin(kl)/(kl) is an Ackermann variable with exp(t)<1 for t<0, |sin|<=1, sin t < t for t>0', 'DiscreteKoyama: the bending-energy root solve is concrete (scipy); paths with symbolic parameters end after the constructor guards']
 
@@ -41,6 +41,8 @@ def instances(tier):
         for N in ((3, 5, 8) if tier == 'quick' else range(3, 9)):
             out.append(dict(name='koyama-sum[p%d,N%d]' % (pi_, N), fn='koyama_sum', args=dict(par=par, N=N), query_timeout_ms=60000))
     out.append(dict(name='nfjc[N3]', fn='nfjc', args=dict(N=3), query_timeout_ms=20000, timeout=1500))
+    if tier != 'quick':  # ~10 min of symbolic execution (two 999-node meshgrids): thorough tier only
+        out.append(dict(name='nfjc-history[N2]', fn='nfjc_history', args=dict(N=2), query_timeout_ms=20000, timeout=1500))
     out.append(dict(name='aliases', fn='aliases', args={}))
     for model in ('Gaussian', 'FreelyJointedChain'):
         for N in ((2,) if tier == 'quick' else (2, 3)):
